@@ -26,6 +26,8 @@ import lit
 SKIP_NODE = ('_atom_str', '_pos')
 SKIP_EDGE = ('_bond_str', '_pos')
 AA_SKELETONS = [s for s in gens.AA_SKELETONS if not re.search(r'[cnos]', s.replace('Cl', ''))]
+EXPLICIT_H_SKELETONS = ['C([H])C', '[H]C', 'C([H])([H])', 'OC([H])', 'C[H;w=0.5]', '[H]', '[H]', 'N([H])C', 'C(=O)[O-]', '[NH3+]',
+                        'C[NH2+]C', '[Na+]', 'CC(=O)[O-]', '[H]OC']
 DESC_RE = re.compile(r'([=#]?)\[([$<>!][A-Za-z0-9]*)\]')
 SYM_ORDER = {'': 1, '=': 2, '#': 3}
 
@@ -317,7 +319,7 @@ def rand_case(rng, mode=None):
     aa = rng.random() < 0.55
     nfr = rng.choice([1, 2, 2, 3, 3, 4])
     names = rng.sample(['A', 'B', 'PEO', 'D', 'OH', 'X'], nfr)
-    kinds = rng.choice(['$', '$$><', '><', '$$$><', '$><' if rng.random() < 0.97 else '$><!'])
+    kinds = rng.choice(['$', '$$><', '><', '$$$><', '$><' if rng.random() < 0.9 else '$><!'])
     # labels may end in digits ([$A1], [>B2], BigSMILES-style [$1], [<12]): the reader appends the order digit,
     # so '$A11' is label A1 with order 1 and the bond order is the LAST character only
     labels = rng.choice([('',), ('', 'A'), ('', '', 'A', 'B'), ('A', 'B', 'C'),
@@ -333,6 +335,10 @@ def rand_case(rng, mode=None):
         elif aa and rng.random() < 0.15:
             # bracket atoms (stored hydrogen count / charge / other element), possibly at a descriptor site
             sk = rng.choice(['[CH2]C', '[Si](C)(C)O', '[N+](C)(C)C', '[O-]', 'C[NH]C', '[CH3]', 'O[Si](C)(C)'])
+        elif aa and rng.random() < 0.14:
+            # explicit hydrogens (the reader keeps them as atoms), annotated hydrogens, single-hydrogen fragments
+            # (end caps), charged atoms; a descriptor may land on the hydrogen itself
+            sk = rng.choice(EXPLICIT_H_SKELETONS)
         nd = rng.choice([1, 1, 2, 2, 3, 4]) if rng.random() < 0.95 else 0
         defs.append('#%s=%s' % (nm, gens.decorate(rng, sk, nd, kinds=kinds, labels=labels, syms=syms)))
     # make growth possible most of the time: a '>'/'<' descriptor usually gets its complement somewhere
